@@ -1287,7 +1287,17 @@ fn bad_op(world: &World, node: usize, bi: usize, rng: &mut SimRng) -> Op {
 		2 => {
 			let mut ids = vec![];
 			let mut cur = bb.parent;
-			let n = rng.range(0, 3);
+			// sometimes the headers in front of the bad one do not lead to it: the chunk ends in a
+			// sibling of its real parent (every header must be judged against the header it extends,
+			// not against its neighbour in the chunk)
+			if rng.chance(1, 3) {
+				let pp = world.blocks[bb.parent].parent;
+				let sibs: Vec<usize> = world.blocks.iter().filter(|b| b.id != bb.parent && b.id != 0 && b.parent == pp).map(|b| b.id).collect();
+				if !sibs.is_empty() {
+					cur = *rng.pick(&sibs);
+				}
+			}
+			let n = if cur != bb.parent { rng.range(1, 3) } else { rng.range(0, 3) };
 			for _ in 0..n {
 				if cur == 0 {
 					break;
